@@ -61,7 +61,13 @@ Emit(step, expect) ==
 ModStep(ord, k, enc) ==
   LET D   == ToSet(ord)
       lv2 == (live \ D) \cup (n..(n + k - 1))
-  IN  [ a |-> "mod", d |-> ord, k |-> k, enc |-> enc,
+      \* an assembled encoding carries the canonical proofs it is assembled from
+      encx == IF enc.kind = "addproof"
+              THEN enc @@ [pa |-> JProof(CanonProof(n, live, enc.a)), pb |-> JProof(CanonProof(n, live, enc.b))]
+              ELSE IF enc.kind = "subset"
+              THEN enc @@ [psup |-> JProof(CanonProof(n, live, enc.sup))]
+              ELSE enc
+  IN  [ a |-> "mod", d |-> ord, k |-> k, enc |-> encx,
         pf   |-> JProof(CanonProof(n, live, ord)),
         pre  |-> Roots(n, live),
         post |-> Roots(n + k, lv2),
